@@ -839,7 +839,10 @@ func Validate(dir Dir) error {
 				err.Reason = ReasonEdited
 			default:
 				// File was not in its original place, meaning another file was added before it.
-				err.File = ex[i].N
+				// The sum file may also list more entries than there are files (a repeated line).
+				if i < len(ex) {
+					err.File = ex[i].N
+				}
 				err.Reason = ReasonAdded
 			}
 			return err
